@@ -459,6 +459,10 @@ def rule_apply(ctx, rule='R14.a'):
             else:
                 rec = recs[0]
                 la, lb = rec['labels']
+                if rec.get('raw'):
+                    bad.append('the result of func is stored straight into table.values (at %s), bypassing the copying and '
+                               'mirroring setter: the new table can share objects with the original (func may return its '
+                               'argument or a view of it), and for a symmetric table only one of the two cells is written' % rec['loc'])
                 want = N.fn('f', N.fn('cell', la, lb))
                 got = rec['value']
                 if not (isinstance(got, Num) and got.t.equals(want)):
